@@ -1153,7 +1153,13 @@ def _discr_twins(x, v, depth=0):
     if cn.endswith("Try::branch"):
         # Continue (0) <=> the operand is a success. The operand's own variant numbering depends on its type.
         kind = None
-        if inner[0] == 'call':
+        # the impl the call resolved to says what the operand is: `<Option<T> as Try>::branch` / `<Result<T, E> as Try>::branch`
+        head = str(x[1]).split(" as ")[0]
+        if head.startswith("<std::option::Option<") or head.startswith("<core::option::Option<"):
+            kind = "Option"
+        elif head.startswith("<std::result::Result<") or head.startswith("<core::result::Result<"):
+            kind = "Result"
+        if kind is None and inner[0] == 'call':
             ic = canon(inner[1]).split("::")
             if ic[-2:-1] == ["Result"] or ic[-1] in ("ok_or", "ok_or_else", "try_from", "try_into"):
                 kind = "Result"
